@@ -2,7 +2,7 @@
 //
 // Case format (line oriented, this is the replay file):
 //   tree <type 0=BST 1=RB 2=AVL> <cmp 0=natural 1=reversed 2=mod> <ctor 0=new 1=with_data 2=full>
-//        <notif bit0=key bit1=value> <universe>
+//        <notif bit0=key notifier bit1=value notifier bit2=no comparator data bit3=key 0 is the NULL pointer> <universe>
 //   i <k>            insert fresh key object + fresh value object for key k
 //   r <k>            remove key k
 //   l <k>            lookup key k
@@ -86,6 +86,9 @@ CmpCtx g_ctx;
 vector<int> *g_trace = nullptr; // when set: node keys compared against, in order
 string g_cmp_error;
 long g_cmp_calls = 0;
+// notif bit 8: key 0 of the universe is represented by the NULL pointer (a legal key: the comparator decides what it means); its
+// "object id" for the destroy log is kept here while it is stored
+bool g_nullkey = false; int g_null_kid = -1;
 
 int order_cmp(int mode, int m, int a, int b) {
   switch (mode) {
@@ -101,13 +104,14 @@ int order_cmp(int mode, int m, int a, int b) {
 int cmp_objs(const void *a, const void *b) {
   const Obj *x = (const Obj *)a, *y = (const Obj *)b;
   g_cmp_calls++;
-  if (!x || !y) { if (g_cmp_error.empty()) g_cmp_error = "comparator called with NULL key"; return 0; }
-  if (x->magic != MAGIC_KEY || y->magic != MAGIC_KEY) {
+  if ((!x || !y) && !g_nullkey) { if (g_cmp_error.empty()) g_cmp_error = "comparator called with NULL key"; return 0; }
+  if ((x && x->magic != MAGIC_KEY) || (y && y->magic != MAGIC_KEY)) {
     if (g_cmp_error.empty()) g_cmp_error = "comparator called with a destroyed or foreign key object";
     return 0;
   }
-  if (g_trace) g_trace->push_back(y->key);
-  return order_cmp(g_ctx.mode, g_ctx.m, x->key, y->key);
+  int kx = x ? x->key : 0, ky = y ? y->key : 0;
+  if (g_trace) g_trace->push_back(ky);
+  return order_cmp(g_ctx.mode, g_ctx.m, kx, ky);
 }
 pint cmp2(pconstpointer a, pconstpointer b) { return cmp_objs(a, b); }
 pint cmp3(pconstpointer a, pconstpointer b, ppointer data) {
@@ -131,7 +135,8 @@ string g_destroy_error;
 
 void destroy_common(void *p, int kind) {
   Obj *o = (Obj *)p;
-  if (!o) { if (g_destroy_error.empty()) g_destroy_error = "notifier called with NULL"; return; }
+  if (!o && g_nullkey && kind == 0 && g_null_kid >= 0) { g_log.push_back({g_null_kid, 0}); g_null_kid = -1; return; }
+  if (!o) { if (g_destroy_error.empty()) g_destroy_error = g_nullkey && kind == 0 ? "key notifier called with the NULL key although no NULL key is stored (or twice)" : "notifier called with NULL"; return; }
   uint32_t want = kind == 0 ? MAGIC_KEY : MAGIC_VAL;
   if (o->magic != want) {
     if (g_destroy_error.empty())
@@ -206,6 +211,7 @@ struct Runner {
   bool stop() const { return !verdict.empty() || foreign; }
 
   Obj *mk(int key, int kind) {
+    if (kind == 0 && key == 0 && g_nullkey) return NULL;
     Obj *o = (Obj *)malloc(sizeof(Obj));
     o->magic = kind == 0 ? MAGIC_KEY : MAGIC_VAL; o->id = next_id++; o->key = key; o->kind = kind;
     return o;
@@ -360,7 +366,9 @@ struct Runner {
 
   void do_insert(int k) {
     Obj *ko = mk(k, 0), *vo = mk(k, 1);
-    all[ko->id] = ko; all[vo->id] = vo;
+    int kid = ko ? ko->id : next_id++;
+    if (ko) all[ko->id] = ko; else vl::stats().klass("null_key_inserted");
+    all[vo->id] = vo;
     std::set<std::pair<int, int>> expect;
     auto it = model.find(k);
     if (it != model.end()) {
@@ -370,7 +378,8 @@ struct Runner {
       if (pending_two_child) saw_touch_after_two_child = true;
     }
     p_tree_insert(tree, ko, vo);
-    model[k] = Ent{ko, vo, ko->id, vo->id};
+    if (!ko) g_null_kid = kid;   // (a replaced NULL key was logged under the old id during the call)
+    model[k] = Ent{ko, vo, kid, vo->id};
     // std::map::operator[] keeps the old key (int) - fine, key ints are equal
     check_log(expect, "insert");
     max_n = std::max(max_n, (int)model.size());
@@ -493,6 +502,7 @@ struct Runner {
   void run() {
     g_ctx.mode = cs.cmp; g_ctx.m = 7; g_ctx.tag = 0;
     g_cmp_error.clear(); g_destroy_error.clear(); g_log.clear(); g_trace = nullptr;
+    g_nullkey = (cs.notif & 8) != 0; g_null_kid = -1;
     g_free_on_destroy = (prop == "C14");
     PTreeType tt = cs.type == 0 ? P_TREE_TYPE_BINARY : cs.type == 1 ? P_TREE_TYPE_RB : P_TREE_TYPE_AVL;
     if (cs.ctor == 0) tree = p_tree_new(tt, cmp2);
@@ -552,6 +562,7 @@ struct Runner {
     if (was_ok && !stop()) {
       // objects the tree never owned a notifier for must be untouched
       for (Obj *o : owned) {
+        if (!o) continue;
         uint32_t want = o->kind == 0 ? MAGIC_KEY : MAGIC_VAL;
         if (o->magic != want) { fail("C14", "altered-user-object", "tree altered or destroyed an object it has no notifier for"); break; }
       }
@@ -613,7 +624,7 @@ rc::Gen<Op> genOp(int U, bool shapes) {
 
 rc::Gen<Case> genCase(const string &prop) {
   using namespace rc;
-  return gen::mapcat(gen::tuple(rng(0, 3), rng(0, 3), gen::weightedElement<int>({{2, 0}, {2, 1}, {6, 2}}), rng(0, 8),
+  return gen::mapcat(gen::tuple(rng(0, 3), rng(0, 3), gen::weightedElement<int>({{2, 0}, {2, 1}, {6, 2}}), rng(0, 16),
                                 gen::weightedElement<int>({{3, 3}, {4, 8}, {4, 64}, {2, 5000}})),
                      [prop](const std::tuple<int, int, int, int, int> &t) {
                        Case base;
@@ -696,6 +707,7 @@ void exhaustive_seqs(const string &prop, int maxlen, long shard, long nshards) {
         for (int i = 0; i < len; i++) { c.ops.push_back(alphabet[x % A]); x /= A; }
         exec_and_record("exh_seq", c, prop, false);
         if (g_failed) return;
+        if (prop == "C14") { c.notif = 11; exec_and_record("exh_seq", c, prop, false); if (g_failed) return; }   // the same with key 0 = the NULL pointer
       }
     }
   }
@@ -742,7 +754,7 @@ extern "C" int LLVMFuzzerTestOneInput(const uint8_t *data, size_t size) {
   FuzzedDataProvider fdp(data, size);
   static const std::string prop = vl::env("VERIF_PROP", "C12");
   Case c;
-  c.type = fdp.ConsumeIntegralInRange<int>(0, 2); c.cmp = fdp.ConsumeIntegralInRange<int>(0, 2); c.ctor = fdp.ConsumeIntegralInRange<int>(0, 2); c.notif = fdp.ConsumeIntegralInRange<int>(0, 7);
+  c.type = fdp.ConsumeIntegralInRange<int>(0, 2); c.cmp = fdp.ConsumeIntegralInRange<int>(0, 2); c.ctor = fdp.ConsumeIntegralInRange<int>(0, 2); c.notif = fdp.ConsumeIntegralInRange<int>(0, 15);
   static const int us[] = {3, 8, 64, 5000}; c.universe = us[fdp.ConsumeIntegralInRange<int>(0, 3)];
   if (prop == "C13" && c.type == 0) c.type = 1; if (prop == "C14") c.ctor = 2;
   while (fdp.remaining_bytes() > 0 && c.ops.size() < 400) {
